@@ -22,7 +22,7 @@ BUILD = build.BUILD
 class Obl:
     def __init__(self, oid, harness, entry, engine, what, tier='quick', mode='bv', unwind=8, params=None, opts=None,
                  timeout=300, cuts=None, solvers=None, validate=True, unwindset=(), cbmc_extra=(), assumes=(), stubs=(),
-                 bounds='', known=(), validate_n=None, expect_reach=True, mem_gb=12, solver=(), defines=(), unwind_fn=None):
+                 bounds='', known=(), validate_n=None, expect_reach=True, mem_gb=12, solver=(), defines=(), unwind_fn=None, precut=None):
         self.id = oid
         self.harness = harness        # path relative to /verif/harness
         self.entry = entry
@@ -48,10 +48,13 @@ class Obl:
         self.mem_gb = mem_gb
         self.solver = solver
         self.defines = tuple(defines)
+        self.precut = dict(precut or {})   # {regex: stub}: body replacement on un-optimised IR (engines AND native replay see the stub)
         self.unwind_fn = unwind_fn or {}   # {regex on C function name: unwind bound} via --unwindset
 
     @property
     def hkey(self):
+        if self.precut:
+            return (self.harness, self.defines, tuple(sorted(self.precut.items())))
         return (self.harness, self.defines)
 
 
@@ -60,8 +63,11 @@ class Obl:
 
 def harness_paths(h, tag=''):
     if isinstance(h, tuple):
-        h, defs = h
+        defs = h[1]
         tag = ''.join('_' + re.sub(r'\W', '_', d) for d in defs)
+        if len(h) > 2:
+            tag += '_cut' + hashlib.md5(repr(h[2]).encode()).hexdigest()[:6]
+        h = h[0]
     base = h.replace('/', '_').replace('.cc', '') + tag
     return {'src': os.path.join(VERIF, 'harness', h), 'll': os.path.join(BUILD, base + '.ll'),
             'c': os.path.join(BUILD, base), 'bin': os.path.join(BUILD, base + '.native'),
@@ -77,10 +83,16 @@ def prepare(harnesses, need_native=True):
     def job(h):
         p = harness_paths(h)
         defs = h[1] if isinstance(h, tuple) else ()
+        cuts = dict(h[2]) if isinstance(h, tuple) and len(h) > 2 else None
         try:
-            build.compile_ir(p['src'], p['ll'], inc, defines=defs)
-            if need_native:
-                build.compile_native(p['src'], p['bin'], inc, defines=defs)
+            if cuts:
+                build.compile_ir_cut(p['src'], p['ll'], inc, defines=defs, cuts=cuts)
+                if need_native:
+                    build.compile_native_from_ir(p['ll'], p['bin'], inc)
+            else:
+                build.compile_ir(p['src'], p['ll'], inc, defines=defs)
+                if need_native:
+                    build.compile_native(p['src'], p['bin'], inc, defines=defs)
         except Exception as e:
             errs[h] = str(e)
     with ThreadPoolExecutor(max_workers=8) as ex:
@@ -148,6 +160,22 @@ def c_for(obl):
 
 
 def run_A(obl, exclude_known=False):
+    """CBMC identifies loops by backward gotos, so the block layout of the generated C decides how its unwinding counters
+    behave; when the LLVM layout exceeds the bound the reverse-post-order layout is tried before giving up"""
+    r = _run_A(obl, exclude_known)
+    if r.get('status') == 'inconclusive' and 'unwinding assertion failed' in r.get('reason', '') and not obl.opts.get('rpo'):
+        import copy
+        o2 = copy.copy(obl)
+        o2.opts = dict(obl.opts)
+        o2.opts['rpo'] = True
+        r2 = _run_A(o2, exclude_known)
+        if r2.get('status') != 'inconclusive':
+            r2['layout'] = 'reverse post-order (LLVM layout exceeded the unwinding bound)'
+            return r2
+    return r
+
+
+def _run_A(obl, exclude_known=False):
     from . import cbmc
     res = {'id': obl.id, 'engine': 'A (ir2c + CBMC 6.11, bit-precise)', 'what': obl.what, 'entry': obl.entry}
     t0 = time.time()
@@ -183,10 +211,15 @@ def run_A(obl, exclude_known=False):
     kinds = {}
     for f in fails:
         kinds.setdefault(f['kind'], []).append(f)
-    if 'unwind' in kinds:
+    real = [f for f in fails if f['kind'] in ('obligation', 'safety', 'ub')]
+    if 'unwind' in kinds and not real:
         res.update(status='inconclusive', reason='unwinding assertion failed: bound %d too small' % obl.unwind, time=time.time() - t0)
         return res
-    if 'unsupported' in kinds:
+    if 'unwind' in kinds:
+        # counterexamples found below the bound are still counterexamples (the native replay decides); the bound itself is reported
+        res['note'] = 'unwinding bound %d exceeded on some path' % obl.unwind
+        fails = real
+    if 'unsupported' in kinds and not real:
         res.update(status='inconclusive', reason='unsupported construct reached: %s' % kinds['unsupported'][0]['description'], time=time.time() - t0)
         return res
     if fails:
